@@ -137,6 +137,38 @@ func runC20(c *core.Ctx) {
 			}
 		}
 	}
+	// (a2) token level inside strings: every text (value or key) that holds braces - server URL templates, path templates,
+	// runtime expressions - with its braces swapped, dropped, doubled, emptied or moved
+	for _, s := range seeds {
+		var tree any
+		if json.Unmarshal(s.data, &tree) != nil {
+			continue
+		}
+		n := 0
+		for _, m := range c20BraceMutants(tree) {
+			if n >= c.Pick(60, 400) {
+				break
+			}
+			n++
+			if mine(idx) {
+				if b, err := json.Marshal(m.tree); err == nil {
+					c20Run(c, c20input{origin: fmt.Sprintf("%s brace-mutation %s", s.origin, m.what), data: b})
+				}
+			}
+			idx++
+		}
+	}
+	for _, u := range []string{"https://}region{.api.example.com/v1", "https://{a}.example.com/}{", "}{", "{", "}", "{}", "{{a}}", "https://{a}.x/{a}/{b", "https://{a.x/}", "/{", "https://{a}{a}.x"} {
+		for _, vars := range []gen.S{nil, {"a": gen.S{"default": "d"}}, {"region": gen.S{"default": "eu"}}, {"a": gen.S{"default": "d"}, "b": gen.S{"default": "e", "enum": gen.Arr("e")}}} {
+			srv := gen.S{"url": u}
+			if vars != nil {
+				srv["variables"] = vars
+			}
+			op := gen.S{"responses": gen.S{"200": gen.S{"description": "d", "links": gen.S{"l": gen.S{"operationId": "o", "server": srv}}}}, "operationId": "o", "servers": gen.Arr(srv)}
+			b, _ := json.Marshal(gen.S{"openapi": "3.0.3", "info": gen.S{"title": "t", "version": "1"}, "servers": gen.Arr(srv), "paths": gen.S{"/p": gen.S{"servers": gen.Arr(srv), "get": op}}})
+			emit(c20input{origin: fmt.Sprintf("server url %q variables=%d", u, len(vars)), data: b})
+		}
+	}
 	// (b) reference graphs
 	for _, in := range c20RefGraphs() {
 		emit(in)
@@ -180,6 +212,69 @@ func runC20(c *core.Ctx) {
 	for _, in := range c20Yaml() {
 		emit(in)
 	}
+}
+
+type c20mutant struct {
+	what string
+	tree any
+}
+
+// c20BraceMutants: for every string value and every object key that holds a brace, copies of the document with that one text
+// changed (braces swapped, one dropped, doubled, emptied, closing brace moved to the front).
+func c20BraceMutants(tree any) []c20mutant {
+	variants := func(t string) []string {
+		var out []string
+		sw := strings.NewReplacer("{", "}", "}", "{").Replace(t)
+		out = append(out, sw, strings.Replace(t, "}", "", 1), strings.Replace(t, "{", "", 1), strings.ReplaceAll(strings.ReplaceAll(t, "{", "{{"), "}", "}}"))
+		if a, b := strings.Index(t, "{"), strings.Index(t, "}"); a >= 0 && b > a {
+			out = append(out, t[:a]+"{}"+t[b+1:], "}"+t[:b]+t[b+1:], t[:a]+t[a+1:b]+"}{"+t[b+1:])
+		}
+		return out
+	}
+	var out []c20mutant
+	var walk func(v any, path []string)
+	walk = func(v any, path []string) {
+		switch x := v.(type) {
+		case string:
+			if strings.ContainsAny(x, "{}") {
+				for vi, nv := range variants(x) {
+					out = append(out, c20mutant{fmt.Sprintf("value at /%s #%d", strings.Join(path, "/"), vi), replaceAt(gen.CloneValue(tree), path, nv)})
+				}
+			}
+		case map[string]any:
+			for _, k := range sortedKeys(x) {
+				if strings.ContainsAny(k, "{}") {
+					for vi, nk := range variants(k) {
+						cp := gen.CloneValue(tree)
+						// rename the key in the copy
+						var cur any = cp
+						for _, p := range path {
+							switch c := cur.(type) {
+							case map[string]any:
+								cur = c[p]
+							case []any:
+								i := 0
+								fmt.Sscanf(p, "%d", &i)
+								cur = c[i]
+							}
+						}
+						if m, ok := cur.(map[string]any); ok {
+							m[nk] = m[k]
+							delete(m, k)
+							out = append(out, c20mutant{fmt.Sprintf("key at /%s/%s #%d", strings.Join(path, "/"), k, vi), cp})
+						}
+					}
+				}
+				walk(x[k], append(path, k))
+			}
+		case []any:
+			for i, e := range x {
+				walk(e, append(path, fmt.Sprint(i)))
+			}
+		}
+	}
+	walk(tree, nil)
+	return out
 }
 
 func jsonPositions(v any) [][]string {
